@@ -34,6 +34,7 @@ ASSUMPTIONS = [
 ]
 TRUSTED = ["chrono's strftime validity check and rendering (oracle `strftime_ok` / `time_str` of Model/Pattern.v)",
            "C10's refinement of the byte-level width writers to the character-level law `apply_params`"]
+RELEASE_TOO = True          # the cases also run through the release-profile harness (see ./check)
 EXHAUSTIVE = {"quick": False, "thorough": False}
 
 
@@ -293,6 +294,13 @@ def cases(rng, tier):
                 out.append(mk(rng, tier, [lit("<"), fmt("d", [[lit(d)]], spec(1, None, None, k)), lit("|"),
                                          fmt("date", [[lit(d)], [lit("local")]], spec(1, ("*", 1), k, "9")), lit(">")],
                               envsel=env))
+    # date formats with literal NON-ASCII text under widths around their character (not byte) count, both alignments
+    for d in ("%Y\u5e74%m\u6708%d\u65e5", "\u5e74\u6708\u65e5", "\u00e9%H", "%Y \U0001f600", "\u20ac%j"):
+        for k in ("3", "5", "9", "11", "12", "14", "20"):
+            for al in (0, 1):
+                for env in envs[:2]:
+                    out.append(mk(rng, tier, [lit("["), fmt("d", [[lit(d)], [lit("utc")]], spec(1, (None, al), k)), lit("|"),
+                                             fmt("date", [[lit(d)]], spec(1, ("*", al), k, "16")), lit("]")], envsel=env))
     # every group kind around ONE child that carries its own spec (max only / min only / both), the group
     # with a wider min, a narrower max, both: the two specs apply one after the other, inner first
     for gname in ("h", "highlight", "", "D", "R"):
